@@ -93,6 +93,8 @@ type PageTree struct {
 	root     core.Dict
 	resolver ObjectResolver
 	pages    []*Page // Cached flattened page list
+
+	visitedNodes map[int]bool // Pages nodes met while flattening, by object number
 }
 
 // NewPageTree creates a new page tree from the root pages dictionary
@@ -158,6 +160,7 @@ func (t *PageTree) Pages() ([]*Page, error) {
 // loadPages traverses the page tree and builds the flattened page list
 func (t *PageTree) loadPages() error {
 	t.pages = make([]*Page, 0)
+	t.visitedNodes = nil
 
 	// Start recursive traversal from root
 	if err := t.traversePageNode(t.root, nil); err != nil {
@@ -211,6 +214,21 @@ func (t *PageTree) traversePageNode(node core.Dict, parent core.Dict) error {
 			kidDict, ok := kidResolved.(core.Dict)
 			if !ok {
 				return fmt.Errorf("invalid kid type: %T", kidResolved)
+			}
+
+			// A Pages node has one parent: meeting the same node again means the
+			// tree loops back on itself or shares a subtree, and walking it would
+			// not end (or would multiply the pages)
+			if ref, isRef := kidObj.(core.IndirectRef); isRef {
+				if kidType, _ := kidDict.Get("Type").(core.Name); kidType == "Pages" {
+					if t.visitedNodes == nil {
+						t.visitedNodes = make(map[int]bool)
+					}
+					if t.visitedNodes[ref.Number] {
+						return fmt.Errorf("page tree node %d is reached twice", ref.Number)
+					}
+					t.visitedNodes[ref.Number] = true
+				}
 			}
 
 			// Recursively traverse child; what it inherits is what this node
